@@ -335,6 +335,9 @@ impl ThreadAllocInfo {
     /// Sets 0 to all values.
     pub fn clear(&mut self) {
         *self = Self::new();
+
+        #[cfg(divan_verif)]
+        ::dsim::probe::tally_cleared();
     }
 
     /// Tallies the total count and size of the allocation operation.
